@@ -277,7 +277,14 @@ def g3_shape(ctx):
                 okw = cls in ("DEFAULT", "UNIT")  # the seed ballot of the chain
             else:
                 okw = cls == "UNIT"
-            ctx.check(okw, f, c, f"{f.short}: one drawn ballot = weight 1 (or its count)", k, f"generated ballot has weight `{k}` ({cls})")
+            # (the weight of a constructed ballot is read off the call itself, not off the arrangement of the statements
+            # around it: this clause keeps its verdict in a restructured function)
+            shape_depth, ctx._shape = ctx._shape, 0
+            try:
+                ctx.check(okw, f, c, f"{f.short}: one drawn ballot = weight 1 (or its count)", k, f"generated ballot has weight `{k}` ({cls}): "
+                          "not the unit weight of one drawn ballot (a count that may be 0 gives a zero-weight ballot, any other value miscounts the voters)")
+            finally:
+                ctx._shape = shape_depth
             if "ranking" not in kw:
                 continue
             r = kw["ranking"]
